@@ -1,5 +1,6 @@
 import RjModel.Lemmas.SyncLemmas
 import RjModel.Lemmas.CrashLemmas
+import RjModel.Lemmas.WalkOrderLemmas
 import RjModel.Model.FileRecv
 /-! # C08 — an interrupted or failed sync can always be repaired by running it again
 (the doer never leaves a file that carries the source's modification time but different bytes) -/
@@ -254,5 +255,56 @@ theorem C08_recovery_from_crash_in_copy_phase {vis : FPath → Bool} {fs0 : FS} 
         cases h2 : src p with
         | none => rfl
         | some e => cases e <;> simp_all [compatible]
+
+/-- **… and no listing has to be assumed for the second run**: a destination that is a well-formed file-system value
+(one entry per path) is, after a crash anywhere in the delete phase or anywhere in the copy phase, again one; its own listing
+in the order of the real walk (`listBelow`) is complete and parents-first (`C17_walk_order_listing`); so running the sync
+again *on the crash state's own listing* ends `ok` in the mirror of the source. -/
+theorem C08_rerun_after_any_crash_own_listing {fs0 : FS} (hwf : fs0.Wf) {r : FPath} {ld : List (FPath × Node)}
+    {src : FPath → Option SEntry} {ls : List (FPath × SEntry)}
+    (hw : DestWF (fun _ => true) fs0 r ld) (hs : SrcWF (fun _ => true) src ls) :
+    (∀ done rest, planDel src ld = done ++ rest →
+      ∃ fsk, runOps (fun f x => delOp f r x) fs0 done = .ok fsk ∧
+        ∃ fs', syncDest fsk r src ls (listBelow fsk r) = .ok fs' ∧ ∀ p, p ≠ [] → MirrorAt fsk fs' r p (src p)) ∧
+    (∀ done rest, planCpy (fun p => fs0.get (r ++ p)) ls = done ++ rest →
+      ∃ fs1 fsk, runOps (fun f x => delOp f r x) fs0 (planDel src ld) = .ok fs1 ∧
+        runOps (fun f x => cpyOp f r x) fs1 done = .ok fsk ∧
+        ∃ fs', syncDest fsk r src ls (listBelow fsk r) = .ok fs' ∧ ∀ p, p ≠ [] → MirrorAt fsk fs' r p (src p)) := by
+  have hsafe : ∀ p c n, (p, Node.folder) ∈ planDel src ld → fs0.get (r ++ (p ++ [c])) = some n → (fun _ => true) (p ++ [c]) = true :=
+    fun _ _ _ _ _ => rfl
+  -- from a repairable, well-formed crash state: run on its own listing
+  have own : ∀ fsk, fsk.Wf → Repairs (fun _ => true) fs0 fsk r src ls →
+      (fsk.get r = some .folder ∧ (∀ k, k < r.length → fsk.get (r.take k) = some .folder) ∧
+        ∀ p, p ≠ [] → fsk.get (r ++ p) ≠ none → fsk.get (r ++ p.dropLast) = some .folder) →
+      ∃ fs', syncDest fsk r src ls (listBelow fsk r) = .ok fs' ∧ ∀ p, p ≠ [] → MirrorAt fsk fs' r p (src p) := by
+    intro fsk hk hrep ⟨h1, h2, h3⟩
+    have hl := destWF_of_listBelow fsk hk r h1 h2 h3
+    obtain ⟨fs', g1, -, g3, -⟩ := hrep (listBelow fsk r) hl.listed hl.parentFirst
+    exact ⟨fs', g1, fun p hp => g3 p hp rfl⟩
+  constructor
+  · intro done rest hsplit
+    obtain ⟨fsk, hrun, hin, hout⟩ := run_dels_gen hw hs hsafe done rest [] fs0 (by simpa using hsplit) (by simp) (fun _ _ => rfl)
+    simp only [List.nil_append] at hin
+    obtain ⟨hroot, hclosed⟩ := dels_prefix_closed hw hs hsafe done rest hsplit fsk hin
+    obtain ⟨fsk', hrun', hrep⟩ := C08_recovery_from_crash_in_delete_phase hw hs hsafe done rest hsplit
+    have e : fsk' = fsk := by rw [hrun] at hrun'; cases hrun'; rfl
+    subst e
+    refine ⟨fsk', hrun, own fsk' (Wf_runDels done fs0 fsk' hwf hrun) hrep ⟨hroot, ?_, hclosed⟩⟩
+    intro k hk
+    rw [hout _ (not_prefix_of_shorter r k hk)]; exact hw.rootAnc k hk
+  · intro done rest hsplit
+    obtain ⟨fs1, fsk, hd, hrun, hrep⟩ := C08_recovery_from_crash_in_copy_phase hw hs hsafe done rest hsplit
+    obtain ⟨fs1', hd', hd1, hd2⟩ := run_dels hw hs hsafe (planDel src ld) [] fs0 (by simp) (by simp) (fun _ _ => rfl)
+    have e1 : fs1' = fs1 := by rw [hd] at hd'; cases hd'; rfl
+    subst e1
+    obtain ⟨fsk', hrun', hin, hout⟩ := run_cpys_gen hw hs done rest [] fs1' (by simpa using hsplit)
+      (by intro q; simp only [List.map_nil, List.not_mem_nil, ↓reduceIte, afterDels]; exact hd1 q) hd2
+    have e2 : fsk' = fsk := by rw [hrun] at hrun'; cases hrun'; rfl
+    subst e2
+    simp only [List.nil_append] at hin
+    obtain ⟨hroot, hclosed⟩ := cpys_prefix_closed hw hs hsafe done rest hsplit fsk' hin
+    refine ⟨fs1', fsk', hd, hrun, own fsk' (Wf_runCpys done fs1' fsk' (Wf_runDels _ fs0 fs1' hwf hd) hrun) hrep ⟨hroot, ?_, hclosed⟩⟩
+    intro k hk
+    rw [hout _ (not_prefix_of_shorter r k hk)]; exact hw.rootAnc k hk
 
 end Rj.C08
